@@ -32,6 +32,14 @@ def gen(tier, rng):
                     calls = [[step, 100000, flush, 1] for _ in range(len(inp) // step + 1)]
                     add(api="deflate", inp=inp, level=level, wrap=wrap, hist_bits=hb, table=table, lbuf=lbuf, calls=calls, meta={"cls": cls, "cpu": cpu})
                 k += 1
+    # inputs whose Adler-32 halves hit their boundary values (A or B equal to 0 or 65520), zlib wrappers, one-shot and streaming, every CPU level in turn
+    from props import c11
+    for i, (name, inp) in enumerate(c11.adler_edge_inputs(rng)):
+        if len(inp) > 20000 and tier == "quick" and i % 2: continue
+        for j, wrap in enumerate([3, 4]):
+            level = (i + j) % 4
+            add(api="deflate_stateless", inp=inp, level=level, wrap=wrap, lbuf=3, calls=[[len(inp), len(inp) * 2 + 600, 0, 1]], meta={"cls": name, "cpu": CPUS[(i + j) % len(CPUS)]})
+            add(api="deflate", inp=inp, level=(level + 1) % 4, wrap=wrap, lbuf=3, calls=[[777, 100000, 0, 1] for _ in range(len(inp) // 777 + 1)], meta={"cls": name, "cpu": CPUS[(i + j + 1) % len(CPUS)]})
     # constant 0x00 / 0xFF input of EVERY length in a range, one-shot: the repeated-character fast path picks its codes by
     # (length-1) mod 258, so every residue must be visited (long runs are cheap for the TLA+ decoder)
     lens = list(range(8, 540)) + [747, 1263, 4095, 4096, 4097] + (list(range(540, 3000)) + list(range(65500, 66300, 1)) if tier == "thorough" else [65505, 65535, 65536 + 230])
